@@ -379,54 +379,35 @@ structure Expect where
   thm : String      -- name of the site theorem in NA.Props.C16
   deriving DecidableEq, Repr
 
-/-- One line per `range` over a map that exists in go/pkg/... after the repairs. A site that is
-new, or whose loop text changed, matches no line. -/
+/-- Rows for the loops whose body the translator CANNOT describe (`opaque` in
+`NA.Gen.MapRangesDescr.descrs`): these stay tied by the hash of their alpha-normalised loop text
+(locals, parameters and labels positional; see translate/mapranges/norm.go). Every other loop needs
+no row: its regenerated descriptor together with `runBody_perm` is the tie. -/
 def expected : List Expect := [
-  ⟨"asa/device.go", "isValidOutput", "validOutput", 0, "ba44d3138e82a0b9", "early-exit", .anyHit, "site_isValidOutput"⟩,
-  ⟨"cisco/config.go", "Config.MergeSpoc", "b.lookup", 0, "8a9f2ef744181606", "own-key-write", .ownKey, "site_mergeSpocMakeMaps"⟩,
-  ⟨"cisco/config.go", "Config.MergeSpoc", "isReferenced", 0, "dbe338dad97cceb6", "collect-then-sort", .collectSorted, "site_mergeSpocWarnings"⟩,
-  ⟨"cisco/diff.go", "State.diffConfig", "comb[prefix]", 0, "ad238789429f2e0c", "early-exit", .agreeFirst, "site_anchorProbe"⟩,
-  ⟨"cisco/diff.go", "State.diffSomeAnchors/onlyAnchorNames", "m", 0, "3e84955dce9f0b53", "collect-then-sort", .collectSorted, "site_onlyAnchorNames"⟩,
-  ⟨"cisco/diff.go", "State.diffASAACLs/addACL", "pos", 0, "8f3d15f401b7a4ce", "own-key-write", .ownKey, "site_posAfterAdd"⟩,
-  ⟨"cisco/diff.go", "State.diffASAACLs/delACL", "pos", 0, "0aa4f68e5f3893d6", "own-key-write", .ownKey, "site_posAfterDel"⟩,
-  ⟨"cisco/diff.go", "State.deleteUnused", "s.a.lookup", 0, "7218f44ce29f39be", "effects", .ownKeySetInsert, "site_deleteUnusedCollect"⟩,
-  ⟨"cisco/diff.go", "State.deleteUnused", "m", 0, "4ba04269d4f21275", "effects", .ownKeySetInsert, "site_deleteUnusedCollect"⟩,
-  ⟨"cisco/diff.go", "State.deleteUnused", "toDelete", 0, "068c339dcc26e65f", "delete-only", .ownKey, "site_deleteStillReferenced"⟩,
-  ⟨"cisco/diff.go", "State.deleteUnused", "toDelete", 1, "c4643d1ef34e2c8d", "effects", .setInsert, "site_markReferenced"⟩,
-  ⟨"cisco/diff.go", "State.generateNamesForTransfer", "s.b.lookup", 0, "0d6cc60cfb90af09", "effects", .perObject, "site_generateNames"⟩,
-  ⟨"cisco/diff.go", "State.generateNamesForTransfer", "m", 0, "3179b6882408a32f", "effects", .perObject, "site_generateNames"⟩,
-  ⟨"cisco/diff.go", "sortGroups", "cf.lookup[\"object-group\"]", 0, "6395d1ea26ee3486", "effects", .perObject, "site_sortGroups"⟩,
-  ⟨"cisco/diff.go", "State.ignoreCryptoGDOI", "rm", 0, "c5f575c32be34800", "delete-only", .ownKey, "site_ignoreCryptoGDOI"⟩,
-  ⟨"cisco/parse.go", "parser.addDefaults", "defaultObjects", 0, "996d5e17f1eedab6", "effects", .ownKey, "site_addDefaults"⟩,
-  ⟨"cisco/parse.go", "postprocessParsed/stripPFSDefault", "lookup[prefix]", 0, "abb0f3481b8c7d0e", "effects", .perObject, "site_rewriteCommands"⟩,
-  ⟨"cisco/parse.go", "postprocessParsed/stripMetric", "lookup[prefix]", 0, "27656f5f09f31db5", "effects", .perObject, "site_rewriteCommands"⟩,
-  ⟨"cisco/parse.go", "postprocessParsed", "lookup[\"crypto ca certificate map\"]", 0, "e7303b37b46ec64b", "effects", .perObject, "site_rewriteCommands"⟩,
-  ⟨"cisco/parse.go", "postprocessParsed", "lookup[\"username\"]", 0, "7c85c3e0b52cb470", "effects", .ownKey, "site_dropUnmanagedUsers"⟩,
-  ⟨"cisco/parse.go", "postprocessParsed", "lookup[\"tunnel-group\"]", 0, "5e788ebeab593e3c", "effects", .perObject, "site_rewriteCommands"⟩,
-  ⟨"linux/parse.go", "normalizeIPTables", "pairs", 0, "647b114a2d7c7eaf", "own-key-write", .ownKey, "site_normalizeIPTables"⟩,
-  ⟨"nsx/diff.go", "genUniqGroupNames", "a", 0, "b68557b2bac816d8", "own-key-write", .ownKey, "site_copyKeys"⟩,
-  ⟨"program/config.go", "LoadConfig", "defaultVals", 0, "f61e5c2bc47f3a5e", "early-exit", .exitOrOwnKey, "site_loadDefaults"⟩
+  ⟨"cisco/diff.go", "State.diffConfig", "comb[prefix]", 0, "f8688036282f6f85", "early-exit", .agreeFirst, "site_anchorProbe"⟩,
+  ⟨"cisco/parse.go", "parser.addDefaults", "defaultObjects", 0, "56f44e4d2fd3ec07", "effects", .ownKey, "site_addDefaults"⟩,
+  ⟨"program/config.go", "LoadConfig", "defaultVals", 0, "4c40b37755449ea3", "early-exit", .exitOrOwnKey, "site_loadDefaults"⟩
 ]
 
-/-- The loops repaired by `fix:` commits: they must stay `range slices.Sorted(maps.Keys(X))`.
-(file, function, X) as listed in `NA.Gen.MapRanges.sortedRanges`. -/
-def repaired : List (String × String × String) := [
-  ("cisco/diff.go", "State.findGroupOnDevice", "ma"),
-  ("cisco/diff.go", "matchCryptoMap/mapPeerToSeq", "seqMap"),
-  ("cisco/parse.go", "parser.checkReferences", "lookup"),
-  ("cisco/parse.go", "parser.checkReferences", "m"),
-  ("cisco/parse.go", "postprocessParsed", "m"),
-  ("cisco/parse.go", "postprocessParsed/setTransRef", "m"),
-  ("cisco/parse.go", "postprocessParsed", "acls"),
-  ("cisco/config.go", "Config.MergeSpoc", "b.lookup"),
-  ("cisco/config.go", "Config.MergeSpoc", "bMap"),
-  ("linux/config.go", "config.MergeSpoc", "b.iptables"),
-  ("linux/config.go", "config.MergeSpoc", "bChains"),
-  ("linux/diff.go", "diffIPTables", "aPairs"),
-  ("nsx/diff.go", "findGroupOnDevice", "ma")
+/-- The loops repaired by `fix:` commits iterate over sorted keys: per (file, function) the least
+number of sorted iterations (`range slices.Sorted(maps.Keys(X))`, `slices.SortedFunc(maps.Keys(X), …)`,
+or "collect the keys, sort, range") that `NA.Gen.MapRanges.sortedRanges` must list. Names of
+variables do not matter. -/
+def repaired : List (String × String × Nat) := [
+  ("cisco/diff.go", "State.findGroupOnDevice", 1),
+  ("cisco/diff.go", "matchCryptoMap/mapPeerToSeq", 1),
+  ("cisco/parse.go", "parser.checkReferences", 2),
+  ("cisco/parse.go", "postprocessParsed", 3),
+  ("cisco/parse.go", "postprocessParsed/setTransRef", 1),
+  ("cisco/config.go", "Config.MergeSpoc", 2),
+  ("linux/config.go", "config.MergeSpoc", 2),
+  ("linux/diff.go", "diffIPTables", 3),
+  ("nsx/diff.go", "findGroupOnDevice", 1)
 ]
 
-def Expect.matchesSite (e : Expect) (file fn mapExpr : String) (ord : Nat) (hash cls : String) : Bool :=
-  e.file == file && e.fn == fn && e.mapExpr == mapExpr && e.ord == ord && e.hash == hash && e.cls == cls
+/-- A row matches a site by file, function, normalised hash and class (the text of the map expression
+and the ordinal are for the reader only). -/
+def Expect.matchesSite (e : Expect) (file fn : String) (hash cls : String) : Bool :=
+  e.file == file && e.fn == fn && e.hash == hash && e.cls == cls
 
 end NA.C16
